@@ -102,10 +102,36 @@ func VerifH_C11_subworkflow_cache() {
 	root := &workflow.Workflow{Steps: map[string]any{"loop": map[any]any{"kind": "foreach", "workflow": "a.yaml"}}}
 	var cache loadfile.FileCache
 	cache, err := SubworkflowCache(root, "/ctx", vConverter{}, nil)
+	// oracle: an error is justified only by a missing file or by a reference cycle reachable from a.yaml
+	justified := false
+	state := map[string]int{} // 1 = on the current path, 2 = done
+	var visit func(f string)
+	visit = func(f string) {
+		refs, present := verifFiles[f]
+		if !present {
+			justified = true
+			return
+		}
+		if state[f] == 1 {
+			justified = true
+			return
+		}
+		if state[f] == 2 {
+			return
+		}
+		state[f] = 1
+		for _, r := range refs {
+			visit(r)
+		}
+		state[f] = 2
+	}
+	visit("a.yaml")
 	if err != nil {
 		verifrt.Reach("error")
+		verifrt.Assert(justified, "sub-workflow files that exist and do not refer to themselves are loaded (shared sub-workflows are allowed)")
 		return
 	}
+	verifrt.Assert(!justified, "a missing or self-referencing sub-workflow file is reported")
 	verifrt.Reach("loaded")
 	// every file reachable from a.yaml is in the cache, keyed by the name used in the workflow and
 	// located below the context directory
